@@ -42,5 +42,22 @@ def run(chk):
                 r["ty"], PFLAGS[f], cc.hexs(r["in"]), r["st"], r["rest"]), cc.short(r))
         if flags & cc.DRIFT_FLAGS and not flags & set(PFLAGS):
             chk.drift("L1-codec", "%s %s %s" % (r["ty"], r.get("cls"), sorted(flags)), cc.short(r, 24))
+    # the same law on a connection: a packet read from a stream takes exactly its own bytes, whatever is already waiting behind it
+    # (the reader is offered everything that is available; every pair of a first packet with a body of 0..12 / 250..258 bytes and a
+    # following packet must come out as written)
+    import json
+    import os
+    first = list(range(0, 13)) + list(range(250, 259)) + ([300, 1000, 65535] if thorough else [300])
+    behs = [{"lens": [a, b, 2], "cut": 10 ** 9, "reads": []} for a in first for b in (0, 1, 3, 17, 255)]
+    bpath, opath = os.path.join(wd, "conn.ndjson"), os.path.join(wd, "conn.out.ndjson")
+    vlib.write_ndjson(bpath, behs)
+    vlib.harness_run(binary, ["transport-replay", bpath, opath])
+    for b, o in zip(behs, vlib.read_ndjson(opath)):
+        taken = sum(r[1] for r in o["reads"])
+        if o["panic"] or o["delivered"] != b["lens"] or not o["same"] or taken != o["full"]:
+            chk.violation("connection:%s" % ("panic" if o["panic"] else "remainder"),
+                          "packets with bodies of %s bytes waiting on a connection: read back as %s%s - bytes behind a packet were taken or changed" % (
+                              b["lens"], o["delivered"], "" if o["same"] else " with different content"), {"behaviour": b, "observed": o})
+    chk.cov["connection_level_cases"] = len(behs)
     chk.assumptions += ["bare container types have no announced length of their own; they are exercised wrapped as nested fields",
                         "base values are canonical (fixed points of the reference codec)"]
